@@ -60,6 +60,10 @@ type mEntry struct {
 	synced bool // false right after a restart: statistics are re-read from the first observation
 }
 
+// c10Addr: targets come in pairs that share scheme, host and path (two probes of one exporter that
+// differ only in other labels); they are still two targets with two hashes.
+func c10Addr(h uint64) string { return fmt.Sprintf("exporter-%d:80", (h+1)/2) }
+
 func recC10() *vkit.Recorder {
 	r := vkit.Rec("C10", "exploration", "rapid operation sequences over the real sidecar Service HTTP API and Proxy: update (assignments over 6 hashes x 2 jobs: adds, removals, state flips, repeats, empty sets, a hash moving to the other job), scrape(hash, outcome), restart; after every operation the status and runtime-info answers are compared with a reference model of the bookkeeping; non-trivial = sequence with a state flip after >=1 scrape, an empty->empty update, a restart while idle, or a target kept across >=2 updates; distinct = digest of the operation sequence")
 	r.Assume("one occurrence per hash per update request (as the coordinator builds them); what the statistics of a target look like right after a restart is not fixed by the statement: counter/health/series are re-synchronised from the first observation after a restart, key set / states / idle-since are judged throughout; the idle instant is bracketed by two harness clock reads when first observed and must be identical afterwards")
@@ -179,7 +183,7 @@ func runC10(rec *vkit.Recorder, c *c10Case) []vkit.Violation {
 				req.Targets[job] = []*target.Target{}
 				for _, t := range ts {
 					req.Targets[job] = append(req.Targets[job], &target.Target{Hash: t.Hash, TargetState: t.State, Series: t.Series, TotalSeries: t.Total,
-						Labels: lbls("__address__", fmt.Sprintf("h%d:80", t.Hash), "__scheme__", "http", "__metrics_path__", "/metrics", "job", job)})
+						Labels: lbls("__address__", c10Addr(t.Hash), "__scheme__", "http", "__metrics_path__", "/metrics", "job", job)})
 				}
 			}
 			before := time.Now()
@@ -230,7 +234,7 @@ func runC10(rec *vkit.Recorder, c *c10Case) []vkit.Violation {
 				job = m.job
 			}
 			payload = op.Samples
-			req := httptest.NewRequest("GET", proxyURL(job, op.Hash, fmt.Sprintf("h%d:80", op.Hash), "/metrics", nil), nil)
+			req := httptest.NewRequest("GET", proxyURL(job, op.Hash, c10Addr(op.Hash), "/metrics", nil), nil)
 			recw := httptest.NewRecorder()
 			n.proxy.ServeHTTP(recw, req)
 			if m != nil {
